@@ -140,6 +140,14 @@ CHECKS = {
           "0..1200 (secretbox and box in both cipher variants, sign, sign_open) and runs every stream XOR and AEAD encrypt/decrypt form with identical pointers, on the AVX2 / SSSE3 / reference backends; the expected answer is the "
           "disjoint-buffer answer."),
     note=NOTE_COMMON + "vector backends operating in place are covered by the correspondence only (no model of the SIMD kernels)."),
+ "C11": dict(
+    category="proof", design_ref="DESIGN.md §3.11",
+    technique="Lean 4 non-interference theorems over leakage-instrumented models (trace of branch decisions and memory indices) of the comparison / big-number helpers, unpad, the encoders, cswap / cmov, the table-scan selection, the X25519 ladder skeleton and the fixed-window recoding; tied to the code by functional equality with the C14/C15/C16 models and by a memcheck taint run of the compiled library with every secret operand marked undefined",
+    text=("PARTIAL BY NATURE. Lean proves, for all secret values of equal public lengths, that the leakage trace (every branch decision and every memory index, in program order) of the modelled mechanisms is identical, "
+          "with negative controls (an early-exit compare and a direct table lookup provably leak). The compiled code is tied to this by running every listed operation under valgrind/memcheck with its secret operands "
+          "tainted (one execution covers all secret values along its path): any conditional jump or address computed from a secret is a violation with the op line as replay; branches on explicitly public results "
+          "(verification status, identity-result errors, scalarmult status) are allowed only in the named wrapper frames. Block functions, field arithmetic and hardware-AES code have no Lean leakage model: for them the taint run alone decides."),
+    note=NOTE_COMMON + "memcheck cannot run AVX-512 (masked); software-AES AEGIS fallback is outside the property's list and skipped; timing of individual instructions is out of scope."),
  "C19": dict(
     category="proof", design_ref="DESIGN.md §3.19",
     technique="Lean 4 theorems over a labelled-transition-system model of the sodium_init lock protocol (inductive invariant over every schedule of every number of threads: init_once, init_safety, no_deadlock, init_completes) + correspondence: N-thread barrier races of the real sodium_init and a mixed workload compared with the model and the sequential run; ThreadSanitizer happens-before runs and a classified table of writable globals for the race-freedom half",
